@@ -246,6 +246,10 @@ impl CompilerTrait for MonitoredCompiler {
         r
     }
 
+    fn reset(&mut self) {
+        self.inner.reset();
+    }
+
     fn reduce_op(&self, op: Self::CompilerOp) -> Result<Self::Expression, tx3_tir::reduce::Error> {
         let name = match &op {
             tir::CompilerOp::BuildScriptAddress(_) => "BuildScriptAddress",
